@@ -14,7 +14,7 @@ LEVEL = "exploration"
 TECHNIQUE = "Hypothesis-generated screens/masks/chunk counts/batches with a spying Scorer; multiset-coverage and selection-validity oracles; CLI differential with SizeScorer"
 RULE = (
     "screens with 1..8 plates (arity 1..2, duplicate conditions across plates), any plate-atomic mask incl. nothing/everything observed, "
-    "n_chunks in 1..plates+3, batch of 0..3 unobserved plate ids in any order with repeats, per-plate scores from {-inf,0,1,1,2.5} U floats "
+    "n_chunks in 1..plates+3, batch of 0..3 unobserved plate ids in any order with repeats, per-plate scores from {-inf,0,1,1,2.5} U floats U near-ties (distinct values agreeing to 1e-10 .. one ulp) "
     "(ties forced), chunk files combined in a drawn order, policy None or KPerSample(k); 1 in 4 cases through the calculate_scores / "
     "select_next_plate CLIs. Non-trivial = (n_chunks>=2 and non-empty batch) or ties at the minimum or n_chunks > candidates. distinct = distinct case JSON."
 )
@@ -31,7 +31,9 @@ def budgets(tier):
     return {"examples": 3000, "max_s": 700, "shrink_s": 90, "shards": 16}
 
 
-_score = st.one_of(st.sampled_from([-math.inf, 0.0, 1.0, 1.0, 2.5, -1.0]), st.floats(min_value=-100, max_value=100, allow_nan=False))
+# near ties: distinct float64 scores that agree to 1e-10 .. one ulp (a selection must still respect "strictly lower")
+_near = st.tuples(st.sampled_from([1234.5678901, -7.25, 1.0, -1.0, 100.0, 1e-3]), st.integers(-3, 3), st.sampled_from([2.0**-52, 1e-12, 1e-10, 5e-10])).map(lambda t: t[0] * (1.0 + t[1] * t[2]))
+_score = st.one_of(st.sampled_from([-math.inf, 0.0, 1.0, 1.0, 2.5, -1.0]), st.floats(min_value=-100, max_value=100, allow_nan=False), _near, _near)
 
 
 @st.composite
@@ -59,7 +61,8 @@ def _case(draw):
         "n_chunks": draw(st.one_of(st.integers(1, n_pl + 3), st.sampled_from([1, 1, 2]))),
         "batch_picks": draw(st.one_of(st.lists(st.integers(0, 20), max_size=3), st.lists(st.integers(0, 20), min_size=1, max_size=2))),
         "batch_repeat": draw(st.booleans()),
-        "scores": [draw(_score) for _ in range(n_pl)],
+        # one case in four: every plate's score is a near-tie of ONE base value (the minimum is then decided in the last digits)
+        "scores": [draw(_score) for _ in range(n_pl)] if draw(st.integers(0, 3)) else (lambda b, e: [b * (1.0 + draw(st.integers(-4, 4)) * e) for _ in range(n_pl)])(draw(st.sampled_from([1234.5678901, -7.25, 1.0, -1.0, 100.0, 2e-6])), draw(st.sampled_from([2.0**-52, 1e-12, 1e-10, 2e-10]))),
         "order_seed": draw(st.integers(0, 10**6)),
         "policy_k": policy_k,
         "cli": draw(st.integers(0, 3)) == 0,
